@@ -274,6 +274,14 @@ def gen_cases(tier):
                 yield {"driver": "split", "cfg": cfg.describe(), "op": op, "vals": bnd[i : i + per], "names": "arcs"}
         for d in bnd[:: 1 if thorough else 6]:
             yield {"driver": "split", "cfg": cfg.describe(), "op": "get", "vals": [d], "names": "seq"}
+    # (d') a GetBulk reply may carry more varbinds than max-repetitions asked for (non-conformant, but well-formed):
+    # every one of them is "a value at some position of the varbind list"
+    for mr in (1, 3, 39):
+        for cfg in (v2c, Cfg("v3", auth=1, priv=2)):
+            for i in range(0, len(bnd), per * (1 if thorough else 4)):
+                yield {"driver": "split", "cfg": cfg.describe(), "op": "getbulk", "vals": bnd[i : i + per], "names": "arcs", "max_rep": mr}
+        for driver in ("sync", "async"):
+            yield {"driver": driver, "cfg": v2c.describe(), "op": "getbulk", "vals": bnd[:per], "names": "arcs", "max_rep": mr}
     for driver in ("sync", "async"):
         for cfg in (Cfg("v1"), Cfg("v2c"), Cfg("v3", auth=2, priv=1)):
             for op in ("get_many", "getbulk", "getnext", "get"):
@@ -419,7 +427,7 @@ def run_case(case, worlds=None):
             it = fast.GetIter(rb.oid_str(BASE))
             o = w.send("getnext", it=it)
         else:
-            it = fast.GetIter(rb.oid_str(BASE), 50)
+            it = fast.GetIter(rb.oid_str(BASE), case.get("max_rep", 50))
             o = w.send("getbulk", it=it)
         if o.kind != "ok":
             return None, "send failed %r" % (o.brief(),), built, 1
@@ -445,7 +453,7 @@ def run_case(case, worlds=None):
 
     base = rb.oid_str(BASE)
     if case["driver"] == "sync":
-        w = drivers.SyncWorld(cfg, responder, timeout=3.0, max_repetitions=50)
+        w = drivers.SyncWorld(cfg, responder, timeout=3.0, max_repetitions=case.get("max_rep", 50))
         try:
             s = w.session
             if op == "get":
@@ -471,7 +479,7 @@ def run_case(case, worlds=None):
                     return x
             return [x async for x in s.getbulk(base)]
 
-        out, reqs, errs = drivers.run_async(cfg, responder, client, timeout=3.0, max_repetitions=50)
+        out, reqs, errs = drivers.run_async(cfg, responder, client, timeout=3.0, max_repetitions=case.get("max_rep", 50))
     if errs:
         raise drivers.MachineryError("agent error %s" % errs[:2])
     if state.get("len", 0) > 4000:
